@@ -40,12 +40,12 @@ def run(report, tier):
                 claim="every published and registered name is accepted in model position with/without PHOTOS and parameters, next to "
                       "labels that extend model names, and reported verbatim (also when user names are registered)",
                 bounds=f"{len(H.ALL)} names x PHOTOS x 3 parameter variants x family registered or not",
-                functions=FUNCS, timeout=t, sample={"name": "CB3PI-MPP", "registered": list(H.FAMILY)}),
+                functions=FUNCS, timeout=t, concrete_body=True, sample={"name": "CB3PI-MPP", "registered": list(H.FAMILY)}),
         Harness(name="reject", module="harness.c06", body="body_reject", sig="sel: int", n_sel=H.N_REJECT,
                 claim="a near-miss unknown word in model position makes parse() raise (ValueError or lark UnexpectedInput) unless a "
                       "ModelAlias of that spelling exists, in which case it means the aliased model; never another model",
                 bounds=f"{len(H.MODELS)} names x {len(H.EDITS)} edits x alias defined or not x with/without parameters",
-                functions=FUNCS, timeout=t, sample={"word": "PHSPX", "edit": "append-X"}),
+                functions=FUNCS, timeout=t, concrete_body=True, sample={"word": "PHSPX", "edit": "append-X"}),
     ]
     for h in hs:
         chrun.run_harness(report, h)
